@@ -834,6 +834,29 @@ class Translator:
         # a call translated as returning by value (const T& results), or any other non-addressable expression
         return self.hoist(a, x)
 
+    def iter_container(self, x):
+        """the (text of the) modelled vector an iterator-valued expression points into"""
+        y = x
+        while y.get('kind') in ('ImplicitCastExpr', 'ParenExpr', 'MaterializeTemporaryExpr', 'ExprWithCleanups', 'CXXBindTemporaryExpr',
+                                'CXXConstructExpr', 'CXXFunctionalCastExpr') and y.get('inner'):
+            ch = [z for z in y['inner'] if z and z.get('kind') != 'CXXDefaultArgExpr']
+            if len(ch) != 1:
+                break
+            y = ch[0]
+        k = y.get('kind')
+        if k == 'DeclRefExpr' and y['referencedDecl']['id'] in getattr(self, 'iter_base', {}):
+            return self.iter_base[y['referencedDecl']['id']]
+        if k == 'CXXMemberCallExpr' and y['inner'][0].get('kind') == 'MemberExpr' and y['inner'][0].get('name') in ('begin', 'end', 'cbegin', 'cend'):
+            o = self.e(y['inner'][0]['inner'][0])
+            return '(*%s)' % o if y['inner'][0].get('isArrow') else o
+        if k == 'CXXOperatorCallExpr' and len(y.get('inner', [])) >= 2:
+            return self.iter_container(y['inner'][1])
+        if k == 'CallExpr':
+            ref, _ = self.callee_decl(y['inner'][0])
+            if ref and ref.get('name') in ('transform', 'copy') and len(y['inner']) >= 4:
+                return self.iter_container(y['inner'][3])
+        self.abort(x, 'iterator expression whose container is not known statically')
+
     def member_of_unbounded(self, x):
         """is the lvalue text x a proper sub-object (root->f / root.f ...) of a variable whose record type holds
         unbounded arrays?"""
@@ -973,6 +996,23 @@ class Translator:
                 a0 = a0['inner'][0]
             if a0.get('kind') == 'DeclRefExpr' and a0['referencedDecl']['id'] in self.lambdas:
                 return self.inline_lambda(n, self.lambdas[a0['referencedDecl']['id']], args[1:])
+        try:
+            a0ct = self.tm.tname(args[0]['type']).rstrip(' *').rstrip() if args else None
+        except ExtractError:
+            a0ct = None
+        if a0ct == 'c_vecit':
+            # iterators of modelled vectors are element positions; dereferencing goes through the bounds-checked element access
+            if name == 'operator*' and len(args) == 1:
+                return 'VEC_AT(%s, %s)' % (self.iter_container(args[0]), self.e(args[0]))
+            if name in ('operator++', 'operator--'):
+                x = self.e(args[0])
+                return ('%s%s' % (x, name[-2:])) if len(args) == 2 else ('%s%s' % (name[-2:], x))
+            if name in ('operator+=', 'operator-=') and len(args) == 2:
+                return '%s %s %s' % (self.e(args[0]), name[len('operator'):], self.e(args[1]))
+            if name in ('operator+', 'operator-', 'operator==', 'operator!=', 'operator<', 'operator<=', 'operator>', 'operator>=') and len(args) == 2:
+                return '(%s %s %s)' % (self.e(args[0]), name[len('operator'):], self.e(args[1]))
+            if name == 'operator=' and len(args) == 2:
+                return '%s = %s' % (self.e(args[0]), self.e(args[1]))
         if name in ('operator==', 'operator!=') and len(args) == 2 and all(a.get('kind') == 'CXXTypeidExpr' and a.get('typeArg') for a in args):
             # typeid(A) == typeid(B) of two TYPES: decided by the (desugared) type spellings of this instantiation
             ta = [(a['typeArg'].get('desugaredQualType') or a['typeArg']['qualType']).replace(' ', '') for a in args]
@@ -1176,6 +1216,11 @@ class Translator:
                             al = ', '.join(['&verif_tmp'] + [self.arg(a, p) for a, p in zip(real, self._ctor_params(cn))])
                             return 'VEC_PUSH(%s, ({ %s verif_tmp; %s(%s); verif_tmp; }))' % (o, et, cn, al)
                         self.abort(n, 'emplace_back: %d constructors of %s with %d parameters in the extraction set' % (len(cands), et, len(real)))
+                is_vec = self.tm.kinds.get(oct0 or '', ('',))[0] == 'vec'
+                if is_vec and name in ('begin', 'cbegin') and not args:
+                    return '((c_vecit)0)'
+                if is_vec and name in ('end', 'cend') and not args:
+                    return '((c_vecit)VEC_SIZE(%s))' % o
                 if name == 'reserve' and len(args) == 1:
                     self.cur.stubs.add('vector::reserve(n) changes no element and no size (allocation failure is an exception)')
                     return '((void)(%s))' % A(0)
@@ -1584,6 +1629,16 @@ class Translator:
         c0 = n
         while c0.get('kind') in ('ExprWithCleanups',) and c0.get('inner'):
             c0 = c0['inner'][0]
+        if c0.get('kind') == 'CXXOperatorCallExpr' and len(c0.get('inner', [])) == 3 and \
+                (self.callee_decl(c0['inner'][0])[0] or {}).get('name') == 'operator=':
+            rhs = c0['inner'][2]
+            while rhs.get('kind') in ('ImplicitCastExpr', 'MaterializeTemporaryExpr', 'ExprWithCleanups', 'CXXBindTemporaryExpr', 'CXXConstructExpr') and rhs.get('inner'):
+                rhs = [y for y in rhs['inner'] if y][0]
+            if rhs.get('kind') == 'CallExpr':
+                rref, _ = self.callee_decl(rhs['inner'][0])
+                if rref and rref.get('name') == 'transform' and self.full_decl(rref) is None:
+                    # it = std::transform(first, last, it, f)
+                    return self.std_transform_iter(rhs, assign_to=self.e(c0['inner'][1]))
         if c0.get('kind') == 'CXXOperatorCallExpr':
             # std::cerr << ... ; console diagnostics: dropped (logged) when the operands have no side effects
             root = c0
@@ -1609,7 +1664,9 @@ class Translator:
                 self.out('__CPROVER_assume(0);')
                 return
             if ref and ref.get('name') == 'transform' and self.full_decl(ref) is None:
-                return self.std_transform(c0)
+                if self.transform_is_simple(c0):
+                    return self.std_transform(c0)
+                return self.std_transform_iter(c0)
             if ref and ref.get('name') == 'iota' and self.full_decl(ref) is None:
                 return self.std_iota(c0)
         if c0.get('kind') == 'CXXMemberCallExpr' and c0['inner'][0].get('kind') == 'MemberExpr' and \
@@ -1753,6 +1810,10 @@ class Translator:
             return
         ct = self.ty(v)
         self.var_types[name] = ct
+        if ct == 'c_vecit':
+            if not init:
+                self.abort(v, 'iterator without initialiser')
+            self.iter_base[v['id']] = self.iter_container(init[-1])
         if v['id'] in self.exported:
             # local of the sliced region that the slice hands back: assignment to the out-parameter
             en = self.exported[v['id']]
@@ -2291,6 +2352,89 @@ class Translator:
         else:
             self.block(body)
 
+    def transform_is_simple(self, n):
+        """std::transform(v.begin(), v.end(), w.begin(), <local lambda>)?"""
+        args = [x for x in n.get('inner', []) if x][1:]
+        if len(args) != 4:
+            return True
+        def strip(x):
+            while x.get('kind') in ('ImplicitCastExpr', 'MaterializeTemporaryExpr', 'CXXConstructExpr', 'ExprWithCleanups', 'CXXBindTemporaryExpr') and x.get('inner'):
+                x = [y for y in x['inner'] if y][0]
+            return x
+        d, f = strip(args[2]), strip(args[3])
+        return d.get('kind') == 'CXXMemberCallExpr' and d['inner'][0].get('name') == 'begin' and \
+            f.get('kind') == 'DeclRefExpr' and f['referencedDecl']['id'] in self.lambdas
+
+    def std_transform_iter(self, n, assign_to=None):
+        """std::transform(v.begin(), v.end(), d, f) with d ANY iterator into a modelled vector and f a callable object
+        (std::function parameter: pure function keyed by the object): w[d + k] = f(v[k]); the obligation that the
+        destination range lies inside the destination vector is what the standard requires of the caller."""
+        inner = [x for x in n.get('inner', []) if x]
+        args = inner[1:]
+        if len(args) != 4:
+            self.abort(n, 'std::transform with %d arguments' % len(args))
+
+        def strip(x):
+            while x.get('kind') in ('ImplicitCastExpr', 'MaterializeTemporaryExpr', 'CXXConstructExpr', 'ExprWithCleanups', 'CXXBindTemporaryExpr') and x.get('inner'):
+                x = [y for y in x['inner'] if y][0]
+            return x
+        b, e_ = strip(args[0]), strip(args[1])
+        if b.get('kind') != 'CXXMemberCallExpr' or b['inner'][0].get('name') not in ('begin', 'cbegin') or \
+                e_.get('kind') != 'CXXMemberCallExpr' or e_['inner'][0].get('name') not in ('end', 'cend'):
+            self.abort(n, 'std::transform source range is not [v.begin(), v.end())')
+        src = self.iter_container(b)
+        if src != self.iter_container(e_):
+            self.abort(n, 'std::transform over a range of two different containers')
+        dbase, doff = self.iter_container(args[2]), self.e(args[2])
+        f = strip(args[3])
+        if f.get('kind') != 'DeclRefExpr':
+            self.abort(n, 'std::transform with a callable that is not a named object')
+        try:
+            fct = self.tm.tname(f['type']).rstrip(' *').rstrip()
+        except ExtractError:
+            fct = None
+        if fct != 'c_opaque':
+            self.abort(n, 'std::transform with a callable that is not an opaque callable object')
+        if not self.instantiate:
+            self.abort(n, 'std::transform through a callable object needs @instantiate (no function calls inside quantifiers)')
+        dk = self.tm.kinds.get(self.tm_type_of_text(dbase) or '', None)
+        sk = self.tm.kinds.get(self.tm_type_of_text(src) or '', None)
+        if not dk or not sk or dk[0] != 'vec' or sk[0] != 'vec':
+            self.abort(n, 'std::transform between containers that are not modelled vectors')
+        rt, at = dk[1], sk[1]
+        cn = 'OPQ_call_' + ident(rt)
+        self.opaque_decls[cn] = (rt, ['c_opaque', at], 'callable object')
+        ftxt = self.e(f)
+        self.cur.stubs.add('std::transform(first, last, d, f): d[k] = f(first[k]); requires [d, d + (last - first)) to be a valid range (library contract)')
+        self.out('{   /* std::transform into an iterator position: w[d + k] = f(v[k]) for every k < v.size(); nothing else changes */')
+        self.ind += 1
+        self.out('__typeof__(%s) verif_old = (%s);' % (src, src))
+        self.out('__typeof__(%s) verif_dold = (%s);' % (dbase, dbase))
+        self.out('unsigned long verif_off = (%s);' % doff)
+        self.out('VERIF_OBL(verif_off <= verif_dold.size && verif_old.size <= verif_dold.size - verif_off, "%s/std::transform: the destination range lies inside the destination vector (line %s)");' % (self.cur.cname, self._line(n)))
+        self.out('__typeof__(%s) verif_dn;' % dbase)
+        self.out('__CPROVER_assume(verif_dn.size == verif_dold.size);')
+        for g in self.instantiate:
+            self.out('__CPROVER_assume(verif_dn.data[%s] == ((verif_off <= (%s) && (%s) - verif_off < verif_old.size) ? %s(%s, verif_old.data[(%s) - verif_off]) : verif_dold.data[%s]));' % (g, g, g, cn, ftxt, g, g))
+        self.out('(%s) = verif_dn;' % dbase)
+        if assign_to:
+            self.out('%s = (c_vecit)(verif_off + verif_old.size);' % assign_to)
+        self.ind -= 1
+        self.out('}')
+
+    def tm_type_of_text(self, txt):
+        """C type of a simple variable / member access text (locals, parameters, self members)"""
+        t = txt.strip()
+        if t.startswith('(*') and t.endswith(')'):
+            base = self.var_types.get(t[2:-1])
+            return base.rstrip(' *').rstrip() if base else None
+        if t in self.var_types:
+            return self.var_types[t].rstrip(' *').rstrip()
+        try:
+            return self.tm.lvalue_type(t, {k: v for k, v in self.var_types.items()})
+        except Exception:
+            return None
+
     def std_transform(self, n):
         """std::transform(v.begin(), v.end(), w.begin(), <local lambda>) as the element loop it denotes"""
         inner = [x for x in n.get('inner', []) if x]
@@ -2577,6 +2721,7 @@ class Translator:
         self.lambdas = {}
         self.var_types = {}
         self.cptr_params = {}
+        self.iter_base = {}
         rt = d['type']['qualType']
         p = rt.find('(')
         rts = rt[:p].strip()
